@@ -321,8 +321,10 @@ theorem inv_trigger (f : Nat) (s : State) (g : Nat) (pre post : List SOp) (hi : 
     exact (frameO_delEntry _ _).inv (inv_passivateS _ _ _ _ _ ((frameO_popHead s g).inv hi))
   | case7 s g pre post h _ hq hh hd f a t ht hb hp =>
     exact inv_passivateS _ _ _ _ _ ((frameO_popHead s g).inv hi)
-  | case8 s g pre post h _ hq hh hd f a t ht hb hp ih =>
+  | case8 s g pre post h _ hq hh hd f a t ht hb hp hx ih =>
     exact ih (((frameO_refresh _ _).trans (frameO_hpush _ _)).inv (inv_passivateS _ _ _ _ _ ((frameO_popHead s g).inv hi)))
+  | case9 s g pre post h _ hq hh hd f a t ht hb hp hx ih =>
+    exact ih (inv_passivateS _ _ _ _ _ ((frameO_popHead s g).inv hi))
 
 theorem inv_processMessageEntry (s : State) (g : Nat) (pre post : List SOp) (hi : InvO s) :
     InvO (processMessageEntry s g pre post) := by
@@ -408,5 +410,13 @@ theorem NoStops.inv {s : State} (hn : NoStops s) : InvO s := by
     its postStop events, at most one of them hit a running actor, and a stopped actor stays stopped -/
 theorem invO_reachable (cfg : List (Strat × Bool)) (ops : List Op) : InvO (run (init cfg) ops) :=
   inv_run _ _ (noStops_spawnAll _ _ ⟨by simp [], fun _ => rfl⟩).inv
+
+/-- with the running check in `tryPassivation` (and `Shutdown`'s own) no stop ever reaches a stopped
+    actor: there is no `postStop a false` event in any run -/
+theorem no_dead_stops (cfg : List (Strat × Bool)) (ops : List Op) (a : Nat) :
+    Ev.postStop a false ∉ (run (init cfg) ops).log := by
+  intro h
+  have := log_sound cfg ops _ h
+  simp [evOK] at this
 
 end GoaktVerif.C12
